@@ -13,7 +13,7 @@ NS = 'http://www.collada.org/2005/11/COLLADASchema'
 def _doc(body):
     return ('<?xml version="1.0" encoding="utf-8"?>\n'
             '<COLLADA xmlns="%s" version="1.4.1">\n'
-            '<asset><created>2020-01-01T00:00:00Z</created><modified>2020-01-01T00:00:00Z</modified>'
+            '<asset><contributor><author>J\u00f6rg \u2713 \u65e5\u672c</author></contributor><created>2020-01-01T00:00:00Z</created><modified>2020-01-01T00:00:00Z</modified>'
             '<up_axis>Y_UP</up_axis></asset>\n%s</COLLADA>\n' % (NS, body))
 
 
@@ -120,7 +120,7 @@ def material(mid, eid):
 
 
 def image(iid, path):
-    return '<image id="%s" name="%s"><init_from>%s</init_from></image>' % (iid, iid, path)
+    return '<image id="%s" name="%s-\u00fc"><init_from>%s</init_from></image>' % (iid, iid, path)
 
 
 def lights():
@@ -230,7 +230,7 @@ def doc_small_mesh():
     body = '<library_effects>' + effect_plain('fx0') + '</library_effects>\n'
     body += '<library_materials>' + material('mat0', 'fx0') + '</library_materials>\n'
     body += '<library_geometries>' + geometry('g0', [triangles('g0')], with_uv=False) + '</library_geometries>\n'
-    body += ('<library_visual_scenes><visual_scene id="vs0"><node id="n0"><translate>1 2 3</translate>'
+    body += ('<library_visual_scenes><visual_scene id="vs0"><node id="n0" name="\u00e9t\u00e9"><translate>1 2 3</translate>'
              + inst_geom('g0') + '</node></visual_scene></library_visual_scenes>\n')
     body += '<scene><instance_visual_scene url="#vs0"/></scene>\n'
     return _doc(body)
@@ -244,7 +244,7 @@ def doc_small_scene():
             '</library_lights>\n')
     body += ('<library_cameras><camera id="c0"><optics><technique_common><perspective><yfov>30</yfov>'
              '<znear>1</znear><zfar>10</zfar></perspective></technique_common></optics></camera></library_cameras>\n')
-    body += ('<library_nodes><node id="a"><instance_node url="#b"/><instance_light url="#l1"/></node>'
+    body += ('<library_nodes><node id="a" name="n\u0153ud-\u65e5\u672c"><instance_node url="#b"/><instance_light url="#l1"/></node>'
              '<node id="b"><rotate>1 0 0 45</rotate><instance_light url="#l0"/></node>'
              '<node id="c"><instance_camera url="#c0"/></node></library_nodes>\n')
     body += ('<library_visual_scenes><visual_scene id="vs0"><node id="r0"><instance_node url="#a"/></node>'
